@@ -42,6 +42,9 @@ fn main() {
             tier = t.clone();
         }
     }
+    if args.get(1).map(|s| s.as_str()) == Some("replay") {
+        std::process::exit(flow::replay(&prop));
+    }
     if args.get(1).map(|s| s.as_str()) != Some("check") {
         eprintln!("usage: dwmc check <C18|C20|C25|...> [--tier quick|thorough]");
         std::process::exit(2);
